@@ -69,7 +69,8 @@ def handlePkt (fs : List (String × String)) : String := Id.run do
   let picked := getD fs "picked" "-"
   let got := getD fs "got" "-"
   let panicked := getD fs "panic" "0" == "1"
-  let c : PktCfg := { udpBufferSize := udp, label := List.replicate labelLen 76, encrypt := enc != "n", encEnabled := enc != "n",
+  let vout := getD fs "vout" "1" == "1"
+  let c : PktCfg := { udpBufferSize := udp, label := List.replicate labelLen 76, encrypt := enc != "n" && vout, encEnabled := enc != "n",
                       vsn := if enc == "0" then 0 else 1, crc }
   -- expected wire length of the (single) packet when nothing is compressed and one compound suffices
   let payload : Option Nat :=
